@@ -483,6 +483,68 @@ def steering(ctx):
                               "request / refresher sources in that order" % (i, tgt, key(val), field), ds[0].loc)
 
 
+def steering_signal_phases(ctx):
+    ob = ctx.ob("C02.7", "steering with run-time phases (rdphase / wrphase are PHY CSR signals): in read mode the command chooser sits on the phase equal "
+                         "to a signal defined as rdphase - 1, in write mode on a signal defined as wrphase - 1, and the request chooser on rdphase / wrphase "
+                         "themselves (each mode uses its own phase pair)", 2)
+    rd, wr = Obj("Signal", (Const(2),)), Obj("Signal", (Const(2),))
+    rd.name, wr.name = "rdphase_csr", "wrphase_csr"
+    rd.provisional = wr.provisional = False
+    v = elab(ctx, *MUX, kwargs={"bank_machines": ListV([Sym("bm0"), Sym("bm1")])},
+             overrides={"settings.phy.nphases": Const(4), "dfi.phases": ListV([Sym("dfi.p%d" % i) for i in range(4)]),
+                        "settings.phy.rdphase": rd, "settings.phy.wrphase": wr},
+             hasattrs={"refresher.cmd.valid": True, "nop.valid": False})
+    f = v.fsms("")[0]
+    ch = v.instances_of("_CommandChooser")
+    modes = {}
+    for s_ in f.states:
+        for l in v.fsm_leaves(f, s_):
+            if l.kind == "assign" and is1(l.value):
+                for c in ch:
+                    if l.target is c.attrs.get("want_reads"):
+                        modes[s_] = ("read", rd)
+                    if l.target is c.attrs.get("want_writes"):
+                        modes[s_] = ("write", wr)
+    if not ob.need(len(modes) == 2, "read/write mode states not found"):
+        return
+    for s_, (mode, ph) in modes.items():
+        req_sigs, cmd_sigs = set(), set()
+        for l in v.fsm_leaves(f, s_):
+            if l.kind == "assign" and str(l.target).startswith("steerer.sel[") and isinstance(l.value, Const) and l.value.v in (1, 2):
+                for c, p in l.guards:
+                    if p and isinstance(c, Op) and c.op == "==":
+                        sig = [a for a in c.args if not isinstance(a, Const)]
+                        if sig:
+                            (req_sigs if l.value.v == 2 else cmd_sigs).add(key(sig[0]))
+        cmd_defs = {}
+        for cs in cmd_sigs:
+            dv = v.single_comb_def(Sym(cs))
+            cmd_defs[cs] = key(dv) if dv is not None else None
+        ob.instance("%s mode (state %s)" % (mode, s_), {"request phase": sorted(req_sigs), "command phase": cmd_defs})
+        want = key(Op("-", (ph, Const(1))))
+        if req_sigs != {key(ph)}:
+            ob.refute("req-phase:%s" % mode, "in %s mode the request chooser is steered by %s, expected the %s phase signal" % (mode, sorted(req_sigs), mode), f.acts[s_][0].loc)
+        if len(cmd_defs) != 1 or list(cmd_defs.values())[0] != want:
+            ob.refute("cmd-phase:%s" % mode, "in %s mode the command chooser is steered by %s, expected a signal defined as %s: with the other mode's phase the "
+                      "two choosers can land on the same DFI phase and an accepted request never reaches the bus" % (mode, cmd_defs, want), f.acts[s_][0].loc)
+
+
+def shared_a10(ctx):
+    ob = ctx.ob("C02.8", "the column slicer never drives address bit 10, so A10 of a column command is exactly the auto-precharge flag (shared with C06.4)", 10)
+    from ..report import Ctx
+    from . import c06
+    sub = Ctx("C06", ctx.tier, ctx.seed, ctx.repo)
+    c06.run(sub)
+    for o in sub.obligations:
+        if o.oid == "C06.4":
+            for i in o.instances[:200]:
+                ob.instance("C06.4: " + i["what"], i["detail"] or "ok")
+            for r in o.refutations:
+                ob.refute(r["key"], r["msg"], None)
+            for u in o.unknowns:
+                ob.unknown(u)
+
+
 def rank_decode(ctx):
     ob = ctx.ob("C02.6", "rank decode: cs_n is decoded from the top rankbits of cmd.ba and the DFI bank from the remaining bits (partition of "
                          "ba); all ranks are selected for STEER_REFRESH on the phase on which the multiplexer issues the refresher's commands", 3)
@@ -531,6 +593,8 @@ def run(ctx):
     auto_precharge(ctx)
     refresh_handshake(ctx)
     steering(ctx)
+    steering_signal_phases(ctx)
+    shared_a10(ctx)
     rank_decode(ctx)
     ctx.assume("the refresher keeps cmd.valid (refresh_req) high until its sequence is done (C03.6) and precharge-all is issued before "
                "REF/ZQCS (C04.4), so leaving the refresh-grant state implies the bank is precharged")
